@@ -23,14 +23,7 @@ import (
 
 func TestMain(m *testing.M) { hx.Main(m) }
 
-func freeAddr() string {
-	ln, err := hx.Listen("tcp", "127.0.0.1:0")
-	if err != nil {
-		panic(err)
-	}
-	defer ln.Close()
-	return ln.Addr().String()
-}
+func freeAddr() string { return hx.FreeAddr() }
 
 func TestC18SignalStartsTheDrain(t *testing.T) {
 	hx.Check(t, hx.Scale(6, 40), func(t *rapid.T) {
